@@ -92,7 +92,9 @@ CLAIMED = {
          "solution of the reading solves an answer state that is delivered after finitely many steps unless an engine step errs first "
          "(Complete0.complete0_delivered), and labeling loses none either: force_ans(q) started in a state th solves delivers a state th "
          "still solves, through lists and compound terms (ForceC.force_delivered, flat_then_label). Not proved: the labeling of hidden "
-         "variables under onceo, recursion, and uniqueness (each solution exactly once); completeness and uniqueness over whole programs are decided "
+         "variables under onceo, recursion, and the second half of uniqueness (a program without disjunction has at most one answer "
+         "state before labeling - Unique.det_one_answer - and labeling enumerates each domain value once, but that the labeled answers "
+         "are pairwise different is checked, not proved); completeness and uniqueness over whole programs are decided "
          "against brute force (query variables, lists, compounds, hidden variables).",
          "6/C17", "Coq proof that no state operation loses a solution (all constraint kinds, any operands) + brute-force projection oracle + differential correspondence",
          "The whole-program lift of completeness (search fairness, labeling order, uniqueness) is not mechanised."),
@@ -190,7 +192,9 @@ CLAIMED = {
          "6/C09", "Coq proof of fused/lazy iteration over the model + step-exact correspondence + repeated and cross-process runs",
          "Hash iteration order (RandomState, pointer hashing) is runtime behaviour outside the model."),
  "C10": ("PARTIAL. Proved: in the model each clause of a disjunction starts from the same state value and the disjunction's answers are the "
-         "multiset union of the clauses' own answers (both kinds), and no single answer comes from anywhere but one clause run alone. "
+         "multiset union of the clauses' own answers (both kinds), and no single answer comes from anywhere but one clause run alone; "
+         "at the level of goals, on the pure relational fragment, the answers of a disjunction are exactly the answers its clauses deliver "
+         "when run alone from the same state (Fair10: nothing leaks, nothing is lost). "
          "Rc aliasing cannot be exhibited by a Gallina model: it is observed by combined-vs-separate runs on the implementation.",
          "6/C10", "Coq proof of the union law over the stream model + combined-vs-separate differential runs (incl. shared FD state)",
          "Rc::make_mut / unsafe aliasing is runtime behaviour; covered by the correspondence only."),
